@@ -1,0 +1,6 @@
+//go:build !verif
+
+package lib
+
+// VerifPoint is a no-op in normal builds (see verif_on.go; build tag "verif").
+func VerifPoint(label string, obj any) {}
